@@ -5,6 +5,7 @@ import (
 	"fmt"
 	"os"
 	"path/filepath"
+	"strings"
 
 	"verifharness/internal/hx"
 )
@@ -26,7 +27,38 @@ func fixedHistories() map[string][]fixedVersion {
 			"a_ext_test.go": "package p_test\n\nimport \"testing\"\n\nfunc TestNothing(t *testing.T) {}\n",
 			"a_int_test.go": "package p\n\nimport \"testing\"\n\nfunc TestInternal(t *testing.T) { _ = t }\n"}
 	}
+	// derive calls in an in-package test file (package p, no imports: a file that imports "testing" costs the
+	// loader 1.4 s per run), next to nested calls in a.go that send the package through the reload loop, and
+	// nested calls in the test file itself; the calls move between the files and disappear from each
+	inTest := func(body, test string) fixedVersion {
+		v := fixedVersion{"a.go": "package p\n\ntype T struct {\n\tA int\n\tB []string\n}\n\n" + body}
+		if test != "" {
+			v["a_test.go"] = "package p\n\n" + test
+		}
+		return v
+	}
+	// two calls under one name on different types (what -autoname exists for: the second call is renamed in
+	// the user's file) next to a nested call whose type changes
+	ledger := func(kt string) fixedVersion {
+		return fixedVersion{"a.go": "package p\n\ntype L struct{ Entries map[" + kt + "]int }\n\ntype O struct{ N []string }\n\nfunc accounts(l *L) map[" + kt + "]struct{} {\n\treturn deriveSet(deriveKeys(l.Entries))\n}\n\nfunc same(l *L, o *O) bool {\n\treturn deriveEqual(l, l) && deriveEqual(o, o)\n}\n"}
+	}
+	// two names for one type (what -dedup exists for) next to a nested call whose type changes
+	twice := func(kt string) fixedVersion {
+		return fixedVersion{"a.go": "package p\n\nfunc f(m map[" + kt + "]bool) int {\n\treturn len(deriveSet(deriveKeys(m))) + len(deriveKeysAgain(m))\n}\n",
+			"a_test.go": "package p\n\nfunc g(m map[" + kt + "]bool) int { return len(deriveKeysInTest(m)) }\n"}
+	}
 	return map[string][]fixedVersion{
+		"calls-in-test-file": {
+			inTest("func keys(m map[string]int) int { return len(deriveSet(deriveKeys(m))) }\n", "func eqT(a, b *T) bool { return deriveEqual(a, b) }\n"),
+			inTest("func keys(m map[int]int) int { return len(deriveSet(deriveKeys(m))) }\n", "func eqT(a, b *T) bool { return deriveEqual(a, b) }\n"),
+			inTest("func keys(m map[int]int) int { return len(deriveKeys(m)) }\n", "func eqT(a, b *T) bool { return deriveEqual(a, b) }\n\nfunc ks(xs []string) int { return len(deriveKeysT(deriveSetT(xs))) }\n"),
+			inTest("func keys(m map[int]int) int { return len(m) }\n", "func eqT(a, b *T) bool { return deriveEqual(a, b) }\n\nfunc ks(xs []int64) int { return len(deriveKeysT(deriveSetT(xs))) }\n"),
+			inTest("func keys(m map[int]int) int { return len(deriveSet(deriveKeys(m))) }\n", "func eqT(a, b *T) bool { return a == b }\n"),
+			inTest("func keys(m map[int]int) int { return len(deriveSet(deriveKeys(m))) }\n", ""),
+			inTest("func keys(m map[int]int) int { return len(m) }\n", "func ks(xs []int64) int { return len(xs) }\n"),
+		},
+		"autoname-renames": {ledger("string"), ledger("int"), ledger("string")},
+		"dedup-renames":    {twice("string"), twice("int")},
 		"deep-chain": {deep("string"), deep("int"), deep("string")},
 		"external-test-package": {
 			withExt("type T struct{ A int }\n\nfunc eq(a, b *T) bool { return deriveEqual(a, b) }\n"),
@@ -44,11 +76,14 @@ func fixedHistories() map[string][]fixedVersion {
 }
 
 func runFixed(cfg hx.Config, meta *hx.Meta) {
-	names := []string{"deep-chain", "external-test-package", "several-files"}
+	names := []string{"deep-chain", "external-test-package", "several-files", "calls-in-test-file", "autoname-renames", "dedup-renames"}
+	flagsOf := map[string][]string{"autoname-renames": {"-autoname"}, "dedup-renames": {"-dedup"}}
 	hs := fixedHistories()
-	hx.Parallel(len(names), 3, func(hi int) {
+	hx.Parallel(len(names), 6, func(hi int) {
 		name := names[hi]
 		vers := hs[name]
+		args := append(append([]string{}, flagsOf[name]...), ".")
+		cmd := "goderive " + strings.Join(args, " ")
 		write := func(dir string, v fixedVersion, old []byte, oldExists bool) {
 			os.RemoveAll(dir)
 			os.MkdirAll(dir, 0o755)
@@ -74,14 +109,14 @@ func runFixed(cfg hx.Config, meta *hx.Meta) {
 			}
 			fs["derived.gen.go (after the run)"] = string(after)
 			fs["derived.gen.go (from scratch)"] = string(scratch)
-			meta.AddDirect(hx.Direct{Class: class, What: name + ": " + what, Files: fs, Cmd: "goderive .", Output: hx.Truncate(out, 1500)})
+			meta.AddDirect(hx.Direct{Class: class, What: name + ": " + what, Files: fs, Cmd: cmd, Output: hx.Truncate(out, 1500)})
 		}
 		var prev []byte
 		prevExists := false
 		for si, v := range vers {
 			sdir := filepath.Join(cfg.Work, fmt.Sprintf("fixed-%s-scratch", name))
 			write(sdir, v, nil, false)
-			gs := hx.Goderive(cfg.Goderive, sdir, ".")
+			gs := hx.Goderive(cfg.Goderive, sdir, args...)
 			sb, sex := read(sdir)
 			meta.CountSafe("fixed/" + name)
 			if gs.Exit != 0 {
@@ -107,13 +142,13 @@ func runFixed(cfg hx.Config, meta *hx.Meta) {
 			for oi, o := range olds {
 				dir := filepath.Join(cfg.Work, fmt.Sprintf("fixed-%s-%d", name, oi))
 				write(dir, v, o.b, o.ex)
-				g := hx.Goderive(cfg.Goderive, dir, ".")
+				g := hx.Goderive(cfg.Goderive, dir, args...)
 				ab, aex := read(dir)
 				if g.Exit != 0 || aex != sex || !bytes.Equal(ab, sb) {
 					report("c07-differs-from-scratch", fmt.Sprintf("version %d, old state %d: one run over the old derived.gen.go does not leave the from-scratch result (exit %d, file exists %v, from scratch %v)", si, oi, g.Exit, aex, sex), v, o.b, o.ex, ab, sb, g.Out)
 					continue
 				}
-				g2 := hx.Goderive(cfg.Goderive, dir, ".")
+				g2 := hx.Goderive(cfg.Goderive, dir, args...)
 				b2, ex2 := read(dir)
 				if g2.Exit != 0 || ex2 != aex || !bytes.Equal(b2, ab) {
 					report("c07-second-run-changes", fmt.Sprintf("version %d, old state %d: a second run changes derived.gen.go (exit %d)", si, oi, g2.Exit), v, o.b, o.ex, b2, sb, g2.Out)
